@@ -178,7 +178,7 @@ fn main() {
         }
         "C17" => {
             use skv_verif::engine_sched::{sched_prop, Flavor};
-            run_model(vec![(sched_prop("C17", Flavor::C17), 1500, 30000), (sched_prop("C17", Flavor::C17Stall), 1200, 24000), (sched_prop("C17", Flavor::C17Permit), 1200, 24000), (sched_prop("C17", Flavor::C17Fail), 800, 16000)], tier, replay)
+            run_model(vec![(sched_prop("C17", Flavor::C17), 1500, 30000), (sched_prop("C17", Flavor::C17Stall), 1200, 24000), (sched_prop("C17", Flavor::C17Permit), 1200, 24000), (sched_prop("C17", Flavor::C17Fail), 800, 16000), (sched_prop("C17", Flavor::C17Locks), 1500, 30000)], tier, replay)
         }
         "C01S" => {
             use skv_verif::engine_sched::{sched_prop, Flavor};
